@@ -147,6 +147,10 @@ class ModbusBaseRequestHandler(asyncio.BaseProtocol):
                                                   callback=lambda x: self.execute(x, *addr),
                                                   unit=units,
                                                   single=single)
+                if not isinstance(self, ModbusConnectedRequestHandler):
+                    # a datagram is self contained: never keep the rest
+                    # of one peer's datagram for the next datagram
+                    reset_frame = True
 
             except asyncio.CancelledError:
                 # catch and ignore cancelation errors
